@@ -828,7 +828,11 @@ int mpq_EGlpNumReadStrXc (mpq_t var,
 		/* ending */
 		mpq_canonicalize (den[0]);
 		mpq_canonicalize (den[1]);
-		mpq_div (var, den[0], den[1]);
+		/* "p/0" and "p/" are not numbers (mpq_div would raise SIGFPE) */
+		if (mpq_sgn (den[1]) == 0)
+			n_char = 0;
+		else
+			mpq_div (var, den[0], den[1]);
 	}
 	mpq_clear (den[0]);
 	mpq_clear (den[1]);
